@@ -215,8 +215,31 @@ func exploreHarness(hs harnessSpec, tier string, known []string) *harnessResult 
 		}
 	}
 	finishing := false
+	// a time budget per harness (VERIF_HARNESS_BUDGET_S; default 30 min in the quick tier, 3 h in the thorough
+	// tier): a change to the code under test can make a harness many times more expensive than it is on the
+	// unchanged tree; when the budget is used up the harness is abandoned and the run is inconclusive - a defined
+	// outcome instead of being killed from outside
+	budget := 1800
+	if tier == "thorough" {
+		budget = 3 * 3600
+	}
+	if v, err := strconv.Atoi(os.Getenv("VERIF_HARNESS_BUDGET_S")); err == nil && v > 0 {
+		budget = v
+	}
+	deadline := time.After(time.Duration(budget) * time.Second)
 	for alive > 0 {
-		ev := <-events
+		var ev event
+		select {
+		case ev = <-events:
+		case <-deadline:
+			hr.Errors = append(hr.Errors, fmt.Sprintf("time budget of %d s used up after %d work items (%d still queued): the exploration of this harness was abandoned", budget, totalItems, len(queue)))
+			finishing = true
+			for _, w := range workers {
+				w.cmd.Process.Kill()
+			}
+			deadline = nil
+			continue
+		}
 		if ev.err != nil {
 			alive--
 			if !finishing {
